@@ -123,4 +123,5 @@ pub fn run(ctx: &'static Ctx) {
     ctx.guard_check("recursive and repeated dependencies explored", ctx.classes_matching(|c| c.contains("self-recursive")) > 0 && ctx.classes_matching(|c| c.contains("repeated-dependency")) > 0 && ctx.classes_matching(|c| c.contains("refers-back-to-primary")) > 0, "self-recursion, a repeated dependency and mutual recursion through the primary type all occurred");
     crate::hist::histories(ctx, P, "document-histories", "TypedData from JSON and its three digests, a sequence on one fresh thread", crate::hist::td_ops());
     crate::tdcheck::value_pairs(ctx, P, "value-pairs");
+    crate::hist::long_runs(ctx, P, "document-long-runs", "TypedData from JSON and its digests, a long run on one fresh thread", if ctx.quick() { 40 } else { 300 }, crate::hist::c08_nth());
 }
